@@ -118,7 +118,8 @@ func run(tapeJSON json.RawMessage, res *core.Result) {
 						dlt = -dlt
 					}
 					useSkew, useRC := skew, rc
-					if op.Alt && tp.AltMs != 0 {
+					if op.Alt && tp.AltMs != 0 && (tp.AltKt == "" || tp.AltKt == op.Svc || w == nil) {
+						// (settings that override the keytab principal verify tickets of that service only)
 						useSkew, useRC = altSkew, rcAlt
 						r.Alt = true
 					}
